@@ -5,17 +5,17 @@ From Sif Require Import Base.Outcome Base.Store.
 Import ListNotations.
 Local Open Scope Z_scope.
 
-Definition DENS : Z := 65536.
-Definition bkey (a d : Z) : Z := a * DENS + d.
-
-Record bank := mkBank { balances : store Z; supply : store Z }.
+(* balances: account id -> denom id -> amount *)
+Record bank := mkBank { balances : store (store Z); supply : store Z }.
 
 Definition getz (k : Z) (m : store Z) : Z := match get k m with Some v => v | None => 0 end.
-Definition bal (b : bank) (a d : Z) : Z := getz (bkey a d) (balances b).
+Definition acct_of (b : bank) (a : Z) : store Z := match get a (balances b) with Some m => m | None => [] end.
+Definition bal (b : bank) (a d : Z) : Z := getz d (acct_of b a).
 Definition sup (b : bank) (d : Z) : Z := getz d (supply b).
 
-Definition credit (b : bank) (a d x : Z) : bank :=
-  mkBank (set (bkey a d) (bal b a d + x) (balances b)) (supply b).
+Definition set_bal (b : bank) (a d v : Z) : bank :=
+  mkBank (set a (set d v (acct_of b a)) (balances b)) (supply b).
+Definition credit (b : bank) (a d x : Z) : bank := set_bal b a d (bal b a d + x).
 
 (* SendCoins of one coin; amount 0 = empty Coins = no-op success; fails on insufficient funds *)
 Definition send (b : bank) (from to d x : Z) : option bank :=
@@ -26,9 +26,9 @@ Definition send (b : bank) (from to d x : Z) : option bank :=
 
 Definition mint (b : bank) (a d x : Z) : bank :=
   if x <=? 0 then b else
-  mkBank (set (bkey a d) (bal b a d + x) (balances b)) (set d (sup b d + x) (supply b)).
+  mkBank (balances (set_bal b a d (bal b a d + x))) (set d (sup b d + x) (supply b)).
 
 Definition burn (b : bank) (a d x : Z) : option bank :=
   if x <=? 0 then Some b
   else if bal b a d <? x then None
-  else Some (mkBank (set (bkey a d) (bal b a d - x) (balances b)) (set d (sup b d - x) (supply b))).
+  else Some (mkBank (balances (set_bal b a d (bal b a d - x))) (set d (sup b d - x) (supply b))).
